@@ -39,6 +39,26 @@ META = {
 OPS = ("PutODSQ4", "PutODS", "RemoveODSQ4", "RemoveQ4", "NewStore")
 
 
+def _wrapped_coverage(stdout):
+    """Store.tla's Next wraps every action in M/Q/S/R(...): TLC reports coverage per call site
+    `<M line .. of module Store (l1 c1 l2 c2)>: distinct:generated`; map the call site back to the
+    action named there."""
+    import re
+    src = open(os.path.join(os.path.dirname(os.path.dirname(os.path.abspath(__file__))), "spec", "store", "Store.tla")).read().splitlines()
+    out = {}
+    for m in re.finditer(r"(?m)^<([MQSR]) line \d+, col \d+ to line \d+, col \d+ of module Store \((\d+) (\d+) (\d+) (\d+)\)>: (\d+):(\d+)", stdout):
+        l1, c1, l2, c2 = (int(m.group(i)) for i in (2, 3, 4, 5))
+        if l1 != l2 or l1 > len(src):
+            continue
+        text = src[l1 - 1][c1 - 1:c2]
+        names = re.findall(r"[A-Z][A-Za-z0-9]+", text)
+        name = names[-1] if names else text
+        if name in ("M", "Q", "S", "R"):
+            continue
+        out[name] = out.get(name, 0) + int(m.group(7))
+    return out
+
+
 def _dedupe(cases):
     best = {}
     for c in cases:
@@ -90,8 +110,12 @@ def run(ctx):
     if not r.ok:
         return
     if not ctx.quick:
-        ctx.require_coverage(r, ["OdsFlushPartial", "Q4FlushPartial", "Join", "RmOds", "RmQ4", "Link", "Crash", "Recover",
-                                 "NsRmOds", "OpEnd"])
+        cov = _wrapped_coverage(r.stdout)
+        missing = [a for a in ("OdsFlushPartial", "Q4FlushPartial", "Join", "RmOds", "RmQ4", "Link", "Crash", "Recover",
+                               "NsRmOds", "OpEnd", "OdsCreate", "Q4Create", "RmLink", "NsReady") if cov.get(a, 0) == 0]
+        ctx.cover(model_action_coverage=cov)
+        if missing:
+            ctx.inconclusive("vacuity: actions never taken in the model run: %s" % missing)
     cases = _dedupe(r.printed.get("CASE", []))
     ctx.cover(model_crash_points=len(cases), exhaustive=True)
     if len(cases) < 500:
